@@ -125,6 +125,8 @@ fn boom(s: str) -> int { throw(s); 1 }
 fn div(a: int, b: int) -> int { a / b }
 fn idx(l: [int], i: int) -> int { l[i] }
 fn unwrap_opt(o: ?int) -> int { o.unwrap() }
+fn opt_or(o: ?int, d: int) -> int { o.unwrap_or(d) + 1 }
+fn opt_list(o: ?[int]) -> int { if o.is_some() { o.unwrap().len() } else { 0 - 1 } }
 fn deep(n: int) -> int { deep(n + 1) + 1 }
 fn partial(n: int) -> int { counter = counter + n; throw("after"); 0 }
 fn main() {}
@@ -281,6 +283,9 @@ FUNCS = {
     "unwrap_opt": (["?int"], "int",
                    lambda a, g: ok(a[0][1]) if a[0][0] == "some" else fail("UncaughtThrow", "Called 'unwrap' on a 'null' option value"),
                    ("fails",)),
+    # the host may pass a plain T (or null) where ?T is declared: the argument is converted to the declared type
+    "opt_or": (["raw?int", "dig"], "int", lambda a, g: ok(I((a[0][1] if a[0][0] == "int" else (a[0][1][1] if a[0][0] == "some" else a[1][1])) + 1)), ()),
+    "opt_list": (["raw?ilist"], "int", lambda a, g: ok(I(len(a[0][1]) if a[0][0] == "list" else (len(a[0][1][1]) if a[0][0] == "some" else -1))), ()),
     "deep": (["dig"], "int", lambda a, g: fail("StackOverFlow"), ("fails",)),
     "partial": (["dig"], "int", _partial, ("fails",)),
 }
@@ -313,6 +318,11 @@ def gen_arg(rng, ty, want_fail):
         return I(rng.randrange(5, 9)) if want_fail else I(0)
     if ty == "?int":
         return ("none",) if want_fail else ("some", I(rng.randrange(-9, 99)))
+    if ty == "raw?int":
+        return rng.choice([I(rng.randrange(-9, 99)), ("null",), ("none",), ("some", I(rng.randrange(-9, 99)))])
+    if ty == "raw?ilist":
+        l = Lst([I(rng.randrange(0, 9)) for _ in range(rng.randrange(0, 4))])
+        return rng.choice([l, ("null",), ("none",), ("some", l)])
     raise ValueError(ty)
 
 
